@@ -65,8 +65,9 @@ def letters():
     return L
 
 
-def build_program(seq, machine):
-    """Returns (bytes from ORG, number N of instructions to execute)."""
+def build_program(seq, machine, halt=True):
+    """Returns (bytes from ORG, number N of instructions to execute).  halt=False: no EI;HALT wait for the frame
+    interrupt (used when the run is placed in the middle of the display period, where memory is contended)."""
     L = letters()
     code = []
 
@@ -89,7 +90,8 @@ def build_program(seq, machine):
             emit(0x3E, 0x3C, 0x32, (here + 5) & 0xFF, (here + 5) >> 8, 0x00)    # LD A,3C ; LD (next),A ; NOP -> INC A
         else:
             emit(*b)
-    emit(0xFB, 0x76)                        # EI ; HALT   (wait for the frame interrupt)
+    if halt:
+        emit(0xFB, 0x76)                    # EI ; HALT   (wait for the frame interrupt)
     emit(0x01, 0x05, 0x00, 0x11, 0x00, 0x92, 0xED, 0xB0)    # LD BC,5 ; LD DE,9200 ; LDIR
     emit(0xDD, 0xFD, 0xDD, 0x21, 0x34, 0x12)                # DD FD DD: LD IX,1234
     emit(0x3E, 0x05, 0xD3, 0xFE)                            # LD A,5 ; OUT (FE),A
@@ -109,7 +111,7 @@ ISR_CODE = bytes((0xF5, 0x3A, COUNTER & 0xFF, COUNTER >> 8, 0x3C, 0x32, COUNTER 
 ISR_SHORT = bytes((0xFB, 0x00, 0xED, 0x4D))
 
 DEFAULT = dict(fmt='szx', machine='48K', cmio=0, python=0, t0='near', isr='long')
-ALTS = dict(fmt=['z80'], machine=['128K'], cmio=[1], python=[1], t0=['zero', 'late', 'big'], isr=['short'])
+ALTS = dict(fmt=['z80'], machine=['128K'], cmio=[1], python=[1], t0=['zero', 'late', 'big', 'display'], isr=['short'])
 
 
 def t0_value(name, machine, seq_len):
@@ -118,6 +120,9 @@ def t0_value(name, machine, seq_len):
         return fd - 180
     if name == 'late':
         return fd - 60         # the interrupt arrives while the letters are executing (IFF may be 0: then it is missed)
+    if name == 'display':
+        return 20000           # inside the display period: the stack (0x79xx), the counter and, on a 128K with an odd
+                               # bank paged in, 0xC000-0xFFFF are contended (the program then has no HALT wait)
     if name == 'zero':
         return 3 * fd - 170    # a later frame
     return 16777216 - 170      # the counter passes 2^24 during the run
@@ -126,7 +131,7 @@ def t0_value(name, machine, seq_len):
 def write_init(cfg, seq, d):
     from skoolkit.snapshot import write_snapshot
     machine = cfg['machine']
-    prog = build_program(seq, machine)
+    prog = build_program(seq, machine, halt=cfg['t0'] != 'display')
     if machine == '48K':
         ram = [(a * 7 + 3) & 0xFF for a in range(0x4000, 0x10000)]
 
@@ -239,6 +244,13 @@ def configs(d):
         cfg = dict(DEFAULT, python=py, cmio=cmio, isr='short')
         if cfg not in seen:
             seen.append(cfg)
+    # contention: the run placed inside the display period, on every simulator
+    for machine in ('48K', '128K'):
+        for py in (0, 1):
+            for fmt in ('szx', 'z80') if machine == '128K' and py else ('szx',):
+                cfg = dict(DEFAULT, machine=machine, cmio=1, python=py, fmt=fmt, t0='display')
+                if cfg not in seen:
+                    seen.append(cfg)
     # the 128K machine with each other choice (the paging and AY fields exist only there)
     for k, v in (('fmt', 'z80'), ('python', 1), ('cmio', 1)):
         cfg = dict(DEFAULT, machine='128K', **{k: v})
